@@ -28,6 +28,8 @@ class RemoteState(dict):
         def __init__(self, *args, **kwargs):
             super().__init__(*args, **kwargs)
             assert not hasattr(RemoteState._active_contexts, 'ctxs')
+            # an object being restored can call loads() itself - keep the state of the call we are nested in (if any)
+            self._outer = tuple(getattr(RemoteState._active_contexts, name, None) for name in ('stack', 'iter', 'unused'))
             RemoteState._active_contexts.stack = []
             RemoteState._active_contexts.iter = -1
             RemoteState._active_contexts.unused = True
@@ -38,13 +40,17 @@ class RemoteState(dict):
                 RemoteState._active_contexts.iter = 0
 
         def __exit__(self, *exc):
-            if exc[0] is None:
-                if not RemoteState._active_contexts.unused:
-                    #TODO: report warning if state is not empty but was unused?
-                    assert RemoteState._active_contexts.iter == -1, RemoteState._active_contexts.iter
-                    assert not RemoteState._active_contexts.stack, RemoteState._active_contexts.stack
-                del RemoteState._active_contexts.stack
-                del RemoteState._active_contexts.iter
+            try:
+                if exc[0] is None:
+                    if not RemoteState._active_contexts.unused:
+                        #TODO: report warning if state is not empty but was unused?
+                        assert RemoteState._active_contexts.iter == -1, RemoteState._active_contexts.iter
+                        assert not RemoteState._active_contexts.stack, RemoteState._active_contexts.stack
+                    del RemoteState._active_contexts.stack
+                    del RemoteState._active_contexts.iter
+            finally:
+                if self._outer[0] is not None:
+                    RemoteState._active_contexts.stack, RemoteState._active_contexts.iter, RemoteState._active_contexts.unused = self._outer
 
     def __init__(self, *args, **kwargs):
         super().__init__(*args, **kwargs)
